@@ -142,4 +142,53 @@ PROPS = {
         "explanation": 'Lean: accounting and pin safety across the compaction commits; harness: compact() refused iff readers/savepoints exist, contents unchanged, file not larger, accounting exact afterwards',
         "timeout": 7000,
     },
+    "C01": {
+        "props_module": "RedbModel.Props.C01",
+        "streams": [("crash", [], "crash")],
+        "rule": "a case = one recorded history (write transactions of every durability / 2-phase / quick-repair mix, savepoints, compaction, clean reopen, growth and shrink; pages 512/1024, regions 64 KiB/1 MiB); "
+                "crash images = every sampled cut of the storage stream x {no pending write, all, header only, all but header, torn header (god byte / one slot / layout fields), set_len lost / alone, single writes, all-but-one, torn prefixes and suffixes, random subsets, all 2^W subsets when W<=10 (thorough)}; "
+                "each image is reopened with the real recovery, read back completely (tables, persistent savepoints), check_integrity'd and compared with the allowed commit window; surviving images are crashed again inside their own recovery run (second generation); "
+                "`st` lines replay recorded streams through the Lean protocol monitor, `img recover` lines compare the Lean recovery model with the real recovery on crash images",
+        "trusted_base": BASE_TRUST + ["modelled, not verified: TransactionalMemory::{new,commit,grow,begin_writable,...}, header finalize/select_primary_slot, Database::do_repair as Model/Recovery.lean (slot choice) and Model/Storage.lean (abstract disk, crash outcomes, protocol monitor)",
+                                      "idealisations stated in Model/Storage.lean: a page whose bytes differ from what the slot's checksum chain covers fails verification, and a torn slot image is not a valid slot (stand for XXH3-128 collision freedom); a single byte (god byte) is written atomically",
+                                      "the driver's abstraction of byte-level writes into abstract events (Driver/Storage.lean) and that Outcome over-approximates the harness's crash-image builder"],
+        "assumptions": ["crash model of the property: any subset of the writes since the last completed sync_data, byte-granular tearing, each pending set_len persisted or not"],
+        "explanation": "Lean: c01_crash_recover (every crash outcome at every prefix of every accepted stream recovers to the served commit or the commit in flight), never_mixture, durable_not_lost, recovery_idempotent; "
+                       "correspondence: recorded real streams are accepted by the monitor, the recovery model agrees with the real recovery on crash images; oracle: ~38k crash images per quick run against the allowed window",
+        "timeout": 7000,
+    },
+    "C08": {
+        "props_module": "RedbModel.Props.C08",
+        "streams": [("fault", [], "fault")],
+        "rule": "a case = one workload (3-7 transactions mixing durability, 2-phase, quick repair, table/multimap operations, commit/abort; pages 512/1024, cache 0..1 GiB); for every sampled index k of its backend-call stream (thorough: every k) the k-th call fails once / permanently; "
+                "each injected run is classified: panic, error-free commit of lost work, wrong read, begin_write accepted after a reported error, backend calls after the latch, close count, reopened contents outside the window",
+        "trusted_base": BASE_TRUST + ["modelled, not verified: CheckedBackend (cached_file.rs) as Model/Latch.lean; the storage protocol as in C01"],
+        "assumptions": ["a failed best-effort eviction write that is absorbed (no caller sees an error, the page stays buffered and is written later) does not count as a storage failure"],
+        "explanation": "Lean: latch theorems (sticky, never reports success without the backend having done the work, refuses after close) and failed-prefix-is-crash (C01's theorem applies to the storage a failed run leaves behind); harness: exhaustive-by-index fault injection with API-level oracles; `latch` lines record what reached the backend after the failure",
+        "timeout": 7000,
+    },
+    "C10": {
+        "props_module": "RedbModel.Props.C10",
+        "streams": [("table", [], "table"), ("mm", [], "mm")],
+        "rule": "images of the storage after durable commits and clean closes of the C04 and C09 program generators (normal tables with u64/bytes/str keys incl. shortened separators and multi-page values; multimaps with inline and subtree value sets; page sizes 512..16384) are decoded by the Lean format checker following only the documented format; each `img check` line is one evaluation; other lines of the streams are the C04/C09 correspondence",
+        "trusted_base": BASE_TRUST + ["the Lean decoder Model/Format.lean is itself the specification of the file format (written from docs/design.md and the accessors); XXH3-128 is the Lean port Model/Xxh3.lean validated against the real function on 1109 inputs"],
+        "assumptions": ["only the primary commit slot is checked; type names inside table definitions are decoded but not compared"],
+        "explanation": "Lean: soundness of the executable checker (checkImage = ok implies checksums match from slot to leaves, keys strictly increasing, separators bound subtrees, uniform depth, counts match, no page twice / overlapping), routing = sorted-list lookup; correspondence: every committed image of the generators passes the checker and decodes to the contents the API returned",
+    },
+    "C19": {
+        "props_module": "RedbModel.Props.C19",
+        "streams": [("compat", [], "compat")],
+        "rule": "a case = one program (u64 keys, str keys with long shared prefixes so that routing keys are shortened, multimap with subtrees, persistent savepoints, values up to 9000 bytes, 4 KiB pages) written by this code and opened by redb 3.0.0 or the reverse, cleanly closed or crash-left, then continued by the other version and read back by the first; both images also pass the Lean format checker",
+        "trusted_base": BASE_TRUST + ["redb 3.0.0 from the offline cargo registry as second implementation"],
+        "assumptions": ["only release 3.0.0; 4 KiB pages (3.0.0 has no page-size setter)"],
+        "explanation": "Lean: routing by comparison alone finds exactly the entries on any checked tree (shortened separators are legal for an old reader), separators are valid encodings, fixed-width keys never shortened; correspondence: files cross both ways with identical contents and passing integrity checks",
+    },
+    "C20": {
+        "props_module": "RedbModel.Props.C20",
+        "streams": [("contract", [], "contract")],
+        "rule": "scenarios per base database: history then drop; read-only open of clean / unclean file; failing opens (bad magic, bad geometry, 4 truncations, 3 extensions, aborted repair, an I/O error at every sampled call index of the open path of a clean and an unclean file, once / permanently); Database dropped while a write transaction is live (commit/abort/drop); read transaction outliving the Database; every scenario's call stream goes through the Lean contract automaton",
+        "trusted_base": BASE_TRUST + ["bounds (read/write inside the current length, never shorter than a page in use) are checked by the recording backend and the history harness on the implementation, not by a theorem about the code"],
+        "assumptions": ["single-threaded scenarios; the close-vs-in-flight-call race (DESIGN F1) needs the pause-point hooks and is not yet exercised"],
+        "explanation": "Lean: automaton theorems (accepted stream = exactly one close, as the last call; read-only stream has no mutation), layout arithmetic (an in-range page lies inside the file; regions disjoint); correspondence: recorded call streams accepted; oracle: backend monitor (bounds, close count, call after close, read-only mutation)",
+    },
 }
